@@ -37,6 +37,9 @@ func (vc *VC) assignLoopOrdinals() {
 			for b := range li.blocks {
 				for _, ins := range b.Instrs {
 					p := ins.Pos()
+					if _, isphi := ins.(*ssa.Phi); isphi {
+						continue // a phi carries the position of the variable's declaration
+					}
 					if dr, isdr := ins.(*ssa.DebugRef); isdr {
 						p = dr.Expr.Pos()
 					}
